@@ -459,6 +459,8 @@ class Interp:
                 pass
         if isinstance(val, Obj | NodeVal):
             return Sym(f"str({val!r})", truthy=True, pytype=str)
+        if isinstance(val, ExcVal):
+            return Sym(f"str({val.name})", truthy=None, pytype=str, tags=("EXCMSG",), attrs={"exc": val})
         self.unsupported(node, f"str() of {type(val).__name__}")
 
     def e_Tuple(self, n, env, m):
@@ -933,7 +935,8 @@ class Interp:
             return self.call_method(f.base, f.attr, args, kwargs, node)
         if isinstance(f, type):
             return self.call_ext(f"builtins.{f.__name__}", args, kwargs, node)
-        if callable(f) and getattr(f, "_sa_native", False):
+        if callable(f) and not isinstance(f, type):
+            # native model supplied by a check (hook stored as attribute of an abstract value)
             return f(self, args, kwargs, node)
         self.unsupported(node, f"call of {type(f).__name__}")
 
